@@ -328,6 +328,8 @@ int main(int argc, char **argv) {
             if (!g_results.empty() && !ran_out) for (auto &d : derivs) if (!returned.count(d.text))
                 report("C10.better-derivation-not-returned", d.text + " scores " + sym::lin_text(d.inside) + " > last returned " + g_results.back().reported.text(), in_beam(d, true) && gt(d.inside, g_results.back().reported.lin()));
         }
+        if (status != 0 && S.check_nbest && S.nbest > 1 && beam_trivial && !ran_out && !derivs.empty())
+            report("C10.failed-although-derivations-exist", "0 returned, " + std::to_string(derivs.size()) + " derivations, k = " + std::to_string(S.nbest), E.ctx.bool_val(true));
         if (status != 0 && S.check_opt) {
             if (!ran_out) for (auto &d : derivs) report(beam_trivial ? "C01.failed-although-derivation-exists" : "C16.failed-although-derivation-in-beam", d.text, in_beam(d, true));
         }
